@@ -1006,3 +1006,26 @@ def cfwo_post(C):
 def check_winding_contract(prop, assumed=False):
     return Contract('cell::check_face_winding_order', prop, pre=cfwo_pre, post=cfwo_post, assigns=['face.n1_id_', 'face.n3_id_', 'vec.*'], assumed=assumed,
                     safety=() if assumed else {'bounds'}, name='cell::check_face_winding_order' + (' (own contract)' if assumed else ''))
+
+
+# ---- cell::is_manifold --------------------------------------------------------------------------------------------------------------------------------
+def is_manifold_post(C):
+    if C.outcome != 'ret': return [('does-not-throw', z3.BoolVal(False))]
+    o = C.old
+    c = C.this
+    s = eset(o, c)
+    nbn = o.len(nodes(o, c)) - o.len(fnq(o, c)); nbf = o.len(faces(o, c)) - o.len(ffq(o, c))
+    ne = o.f(s, 'set.size')
+    return [('yes-only-if-every-stored-edge-has-two-faces', QForall(lambda k: z3.Implies(z3.And(C.ret, member(o, s, k)), z3.And(stored(o, s, k, 'f1_id_.has'), stored(o, s, k, 'f2_id_.has'))), 1, 'edges')),
+            ('yes-only-if-the-euler-characteristic-is-two', z3.Implies(C.ret, nbn - ne + nbf == 2))]
+
+
+def is_manifold_pre(C):
+    o = C.old; c = C.this
+    big = 2 ** 31 - 1
+    return [('counts-fit-in-an-int', z3.And(o.len(nodes(o, c)) <= big, o.len(faces(o, c)) <= big, o.f(eset(o, c), 'set.size') <= big, o.f(eset(o, c), 'set.size') >= 0,
+                                            o.len(fnq(o, c)) <= o.len(nodes(o, c)), o.len(ffq(o, c)) <= o.len(faces(o, c))))]
+
+
+def is_manifold_contract(prop):
+    return Contract('cell::is_manifold', prop, pre=is_manifold_pre, post=is_manifold_post, assigns=[], safety={'bounds'}, name='cell::is_manifold')
